@@ -585,6 +585,18 @@ class Solver:
         total_rewards_strategies = self._get_total_rewards_strategies()
         return total_rewards_strategies, n_iterations_rew
 
+    @staticmethod
+    def _change(new, old):
+        """
+            Difference between two consecutive iterates of a value. A difference of at most two
+            units in the last place is the resolution of the floating-point numbers themselves
+            (for values above 2**32 it exceeds any small threshold) and counts as no change.
+        """
+        change = abs(new - old)
+        if change <= 2 * math.ulp(max(abs(new), abs(old))):
+            return 0
+        return change
+
     def value_iteration_total_rewards(self):
         """ 
             Calculates the expected rewards for each state.
@@ -602,9 +614,9 @@ class Solver:
             max_diff = 0
             for state in self.state_list:
                 expected_rewards_next, expected_rewards_min_reach, expected_reach_min_rewards = state.value_iteration_rewards(self.state_list)
-                current_diff_expected_rew = abs(expected_rewards_next - state.expected_rewards)
-                current_diff_min_reach = abs(expected_rewards_min_reach - state.expected_rewards_min_reach)
-                current_diff_reach = abs(expected_reach_min_rewards - state.expected_reach_min_rewards)
+                current_diff_expected_rew = self._change(expected_rewards_next, state.expected_rewards)
+                current_diff_min_reach = self._change(expected_rewards_min_reach, state.expected_rewards_min_reach)
+                current_diff_reach = self._change(expected_reach_min_rewards, state.expected_reach_min_rewards)
                 current_diff = max(current_diff_expected_rew, current_diff_min_reach, current_diff_reach)
                 if current_diff > max_diff:
                         max_diff = current_diff    
